@@ -466,6 +466,8 @@ func (u *Univ) Decls() string {
 		b.WriteString("))\n")
 	}
 	b.WriteString("(define-fun str.empty () Str str!0)\n")
+	// the only string of length 0 is the empty string (so `len(s) == 0` and `s == ""` are the same test)
+	b.WriteString("(assert (forall ((s Str)) (! (=> (= (s.len s) 0) (= s str!0)) :pattern ((s.len s)))))\n")
 	for _, p := range u.prelude {
 		b.WriteString(p)
 		b.WriteString("\n")
